@@ -31,7 +31,7 @@ def strip_comments(src):
 PUNCT = ["<<=", ">>=", "..=", "...", "::", "->", "=>", "==", "!=", "<=", ">=", "&&", "||", "+=", "-=", "*=", "/=", "%=", "^=", "&=", "|=",
          "<<", ">>", "..", "+", "-", "*", "/", "%", "^", "&", "|", "!", "=", "<", ">", "(", ")", "[", "]", "{", "}", ",", ";", ":", ".", "#"]
 INT_SUFFIX = "u8|u16|u32|u64|u128|usize|i8|i16|i32|i64|i128|isize"
-TOK_RE = re.compile(r"(?P<ws>\s+)|(?P<num>(?:0x[0-9a-fA-F_]+|[0-9][0-9_]*)(?:%s)?)|(?P<id>[A-Za-z_][A-Za-z0-9_]*)|(?P<p>%s)"
+TOK_RE = re.compile(r"(?P<ws>\s+)|(?P<str>\x22(?:[^\x22\\]|\\.)*\x22)|(?P<float>[0-9][0-9_]*\.[0-9][0-9_]*(?:f64|f32)?)|(?P<num>(?:0x[0-9a-fA-F_]+|[0-9][0-9_]*)(?:%s)?)|(?P<id>[A-Za-z_][A-Za-z0-9_]*)|(?P<p>%s)"
                     % (INT_SUFFIX, "|".join(re.escape(p) for p in PUNCT)))
 
 
@@ -55,7 +55,12 @@ ASSIGN_OPS = ["=", "+=", "-=", "*=", "/=", "%=", "^=", "&=", "|=", "<<=", ">>="]
 
 class Parser:
     def __init__(self, toks, fname="?"):
-        self.t = toks; self.i = 0; self.fname = fname
+        self.t = toks; self.i = 0; self.fname = fname; self.ns = False     # ns: inside an `if`/`while`/`match` head (no struct literals)
+
+    def with_ns(self, flag, f):
+        old = self.ns; self.ns = flag
+        try: return f()
+        finally: self.ns = old
 
     def fail(self, what):
         raise Unsupported(f"fn {self.fname}, line {self.t[self.i][2]}: {what} (at `{self.t[self.i][1]}`)")
@@ -95,7 +100,9 @@ class Parser:
             return ("tuple", els)
         name = self.ident()
         while self.accept("::"): name = self.ident()
-        if self.peek() == "<": self.fail("generic type")
+        if self.peek() == "<":
+            if name != "Vec": self.fail("generic type")
+            self.next(); el = self.ty(); self.expect(">"); return ("vec", el)
         return ("name", name)
 
     # ---- items
@@ -110,9 +117,9 @@ class Parser:
             if self.peek() in ("&", "self"):
                 # &self / &mut self receivers
                 save = self.i
-                if self.accept("&"): self.accept("mut")
+                isref = self.accept("&"); ismut = isref and self.accept("mut")
                 if self.accept("self"):
-                    params.append(("self", ("name", "Self"), False))
+                    params.append(("self", ("selfty", "mut" if ismut else "ref" if isref else "val"), False))
                     if not self.accept(","): self.expect(")"); break
                     continue
                 self.i = save
@@ -195,6 +202,7 @@ class Parser:
 
     # ---- expressions
     def expr(self, nostruct=False):
+        if nostruct: return self.with_ns(True, lambda: self.expr())
         e = self.binexpr(0)
         if self.peek() in ("..", "..="):
             incl = self.next() == "..="
@@ -232,10 +240,12 @@ class Parser:
     def args(self):
         a = []
         self.expect("(")
-        while not self.accept(")"):
-            a.append(self.expr())
-            if not self.accept(","): self.expect(")"); break
-        return a
+        def go():
+            while not self.accept(")"):
+                a.append(self.expr())
+                if not self.accept(","): self.expect(")"); break
+            return a
+        return self.with_ns(False, go)
 
     def postfix(self):
         e = self.primary()
@@ -251,7 +261,7 @@ class Parser:
                 elif self.peek() == "::": self.fail("turbofish")
                 else: e = ("field", e, nm)
             elif self.peek() == "[" and self.kind() == "p":
-                self.next(); ix = self.expr(); self.expect("]")
+                self.next(); ix = self.with_ns(False, lambda: self.expr()); self.expect("]")
                 e = ("index", e, ix)
             elif self.peek() == "?" : self.fail("`?` operator")
             else: return e
@@ -260,6 +270,8 @@ class Parser:
         k = self.kind(); p = self.peek()
         if k == "num":
             v, suf = parse_int(self.next()); return ("num", v, suf)
+        if k == "float": return ("float", self.next())
+        if k == "p" and p in ("(", "[", "{") and self.ns: return self.with_ns(False, lambda: self.primary())
         if k == "p" and p == "(":
             self.next()
             if self.accept(")"): return ("tuple", [])
@@ -298,13 +310,90 @@ class Parser:
                     else: b = self.block()
                 return ("if", c, a, b)
             if p in ("true", "false"): self.next(); return ("bool", p == "true")
-            if p in ("match", "loop", "while", "for", "unsafe", "move", "return", "break"): self.fail(f"`{p}` in expression position")
+            if p == "match": return self.match_expr()
+            if p in ("loop", "while", "for", "unsafe", "move", "return", "break"): self.fail(f"`{p}` in expression position")
             segs = [self.ident()]
             while self.accept("::"): segs.append(self.ident())
-            if self.peek() == "!" and self.peek(1) in ("(", "[", "{"): self.fail(f"macro {segs[-1]}!")
-            if self.peek() == "{" and segs[-1][0].isupper(): self.fail("struct literal")
+            if self.peek() == "!" and self.peek(1) in ("(", "[", "{"): return self.macro(segs[-1])
+            if self.peek() == "{" and segs[-1][0].isupper() and not self.ns: return self.struct_lit(segs[-1])
             return ("path", segs)
         self.fail("expression expected")
+
+
+    def struct_lit(self, name):
+        """`Name { f: e, g }` (field shorthand allowed; no `..base`)"""
+        self.expect("{"); fields = []
+        def go():
+            while not self.accept("}"):
+                if self.peek() == "..": self.fail("struct update syntax")
+                f = self.ident()
+                e = self.expr() if self.accept(":") else ("path", [f])
+                fields.append((f, e))
+                if not self.accept(","): self.expect("}"); break
+            return ("structlit", name, fields)
+        return self.with_ns(False, go)
+
+    def macro(self, name):
+        """`assert!(c, "msg")`, `panic!("msg")`, `vec![a, b]`, `vec![x; n]` - everything else is refused"""
+        self.next()                                  # `!`
+        if name in ("assert", "panic"):
+            self.expect("(")
+            def go():
+                c = None
+                if name == "assert": c = self.expr()
+                # the message (string literals are not tokens of the subset): skip to the matching `)`
+                d = 1
+                while d > 0:
+                    if self.kind() == "eof": self.fail("unterminated macro")
+                    t = self.next()
+                    if t == "(": d += 1
+                    elif t == ")": d -= 1
+                return ("assert", c) if name == "assert" else ("panic",)
+            return self.with_ns(False, go)
+        if name == "vec":
+            self.expect("[")
+            def go():
+                if self.accept("]"): return ("vec", [])
+                first = self.expr()
+                if self.accept(";"):
+                    n = self.expr(); self.expect("]"); return ("vecrep", first, n)
+                els = [first]
+                while not self.accept("]"):
+                    self.expect(",")
+                    if self.accept("]"): break
+                    els.append(self.expr())
+                return ("vec", els)
+            return self.with_ns(False, go)
+        self.fail(f"macro {name}!")
+
+    def match_expr(self):
+        """`match e { P | Q => a, R => b, _ => c }` with path / literal patterns only"""
+        self.next()
+        scrut = self.expr(nostruct=True)
+        self.expect("{"); arms = []
+        def go():
+            while not self.accept("}"):
+                pats = []
+                while True:
+                    if self.kind() == "id" and self.peek() == "_": self.next(); pats.append(("wild",))
+                    elif self.kind() == "num": v, suf = parse_int(self.next()); pats.append(("num", v, suf))
+                    elif self.kind() == "id":
+                        segs = [self.ident()]
+                        while self.accept("::"): segs.append(self.ident())
+                        if self.peek() in ("(", "{"): self.fail("match pattern with fields")
+                        pats.append(("path", segs))
+                    else: self.fail("match pattern")
+                    if not self.accept("|"): break
+                if self.peek() == "if": self.fail("match guard")
+                self.expect("=>")
+                if self.peek() == "{" : body = ("blockexpr", self.block()); self.accept(",")
+                else:
+                    body = self.expr()
+                    if not self.accept(","):
+                        if self.peek() != "}": self.fail("`,` expected after match arm")
+                arms.append((pats, body))
+            return ("match", scrut, arms)
+        return self.with_ns(False, go)
 
 
 def parse_int(text):
@@ -313,31 +402,68 @@ def parse_int(text):
     return int(m.group(1).replace("_", ""), 0), m.group(2)
 
 
-def find_fn(src_stripped, name, rel):
-    """locate the unique `fn <name>(` item in comment-stripped source; returns (start offset, line)"""
-    ms = list(re.finditer(r"(?:\bpub(?:\([a-z]+\))?\s+)?\bfn\s+%s\s*\(" % re.escape(name), src_stripped))
+def find_fn(src_stripped, name, rel, lo=0, hi=None):
+    """locate the unique `fn <name>(` item in comment-stripped source (between offsets lo..hi); returns (start offset, line)"""
+    hi = len(src_stripped) if hi is None else hi
+    ms = list(re.finditer(r"(?:\bpub(?:\([a-z]+\))?\s+)?\bfn\s+%s\s*\(" % re.escape(name), src_stripped[lo:hi]))
     if not ms: raise Unsupported(f"fn {name} not found in {rel}")
     if len(ms) > 1: raise Unsupported(f"fn {name} is defined {len(ms)} times in {rel}")
-    return ms[0].start(), src_stripped.count("\n", 0, ms[0].start()) + 1
+    return lo + ms[0].start(), src_stripped.count("\n", 0, lo + ms[0].start()) + 1
 
 
-def parse_fn(repo, rel, name):
-    src = strip_comments(open(os.path.join(repo, rel)).read())
-    off, line = find_fn(src, name, rel)
-    j = src.index("{", off); d = 0; end = None
+def brace_block(src, j, what):
+    """offset just after the `}` matching the `{` at offset j"""
+    d = 0
     for q in range(j, len(src)):
         if src[q] == "{": d += 1
         elif src[q] == "}":
             d -= 1
-            if d == 0: end = q + 1; break
-    if end is None: raise Unsupported(f"fn {name}: unbalanced braces in {rel}")
+            if d == 0: return q + 1
+    raise Unsupported(f"{what}: unbalanced braces")
+
+
+def find_impl(src, impl, rel):
+    """the unique `impl <impl> {` block (whitespace-insensitive header); returns (body start, body end, self type, aliases)"""
+    pat = r"\bimpl\s+" + r"\s+".join(re.escape(w) for w in impl.split()) + r"\s*\{"
+    ms = list(re.finditer(pat, src))
+    if len(ms) != 1: raise Unsupported(f"`impl {impl}` found {len(ms)} times in {rel}")
+    j = ms[0].end() - 1; end = brace_block(src, j, f"impl {impl}")
+    body = src[j:end]
+    aliases = {m.group(1): m.group(2) for m in re.finditer(r"\btype\s+(\w+)\s*=\s*(\w+)\s*;", body)}
+    return j, end, impl.split()[-1], aliases
+
+
+def parse_fn(repo, rel, name, impl=None):
+    src = strip_comments(open(os.path.join(repo, rel)).read())
+    lo, hi, selfty, aliases = 0, None, None, {}
+    if impl is not None: lo, hi, selfty, aliases = find_impl(src, impl, rel)
+    off, line = find_fn(src, name, rel if impl is None else f"{rel} (impl {impl})", lo, hi)
+    j = src.index("{", off); end = brace_block(src, j, f"fn {name} in {rel}")
     toks = tokenize(src[off:end], line)
     p = Parser(toks, name)
     fn = p.fn_item()
     end_line = toks[p.i - 1][2]
     norm = " ".join(t[1] for t in toks[:p.i])
-    fn.update({"file": rel, "line0": line, "line1": end_line, "hash": hashlib.sha256(norm.encode()).hexdigest()[:16], "norm": norm})
+    fn.update({"file": rel, "line0": line, "line1": end_line, "hash": hashlib.sha256(norm.encode()).hexdigest()[:16], "norm": norm,
+               "selfty": selfty, "aliases": aliases, "impl": impl})
     return fn
+
+
+def parse_struct(repo, rel, name):
+    """fields of `struct <name> { a: T, pub b: U }` (plain named types only)"""
+    src = strip_comments(open(os.path.join(repo, rel)).read())
+    ms = list(re.finditer(r"\bstruct\s+%s\s*\{" % re.escape(name), src))
+    if len(ms) != 1: raise Unsupported(f"struct {name} found {len(ms)} times in {rel}")
+    j = ms[0].end() - 1; end = brace_block(src, j, f"struct {name}")
+    fields = []
+    for item in src[j + 1:end - 1].split(","):
+        item = item.strip()
+        if not item: continue
+        m = re.fullmatch(r"(?:pub(?:\([a-z]+\))?\s+)?(\w+)\s*:\s*(\w+)", item)
+        if not m: raise Unsupported(f"struct {name} in {rel}: field `{item}` is not `name: PlainType`")
+        fields.append((m.group(1), m.group(2)))
+    if not fields: raise Unsupported(f"struct {name} in {rel}: no fields")
+    return fields
 
 
 # ------------------------------------------------------------------------------------------------ lowering to a small monadic IR
@@ -348,9 +474,16 @@ WORD = ("u64", "usize", "u8", "int")
 class Var:
     def __init__(self, kind, lean, ty=None, init=True, rust=None):
         self.kind, self.lean, self.ty, self.init, self.rust = kind, lean, ty, init, rust
-    def copy(self): return Var(self.kind, list(self.lean) if isinstance(self.lean, list) else self.lean, self.ty,
-                               list(self.init) if isinstance(self.init, list) else self.init, self.rust)
+    isref = False; vec = False; mut = False
+    def copy(self):
+        v = Var(self.kind, list(self.lean) if isinstance(self.lean, list) else self.lean, self.ty,
+                list(self.init) if isinstance(self.init, list) else self.init, self.rust)
+        v.isref, v.vec, v.mut = self.isref, self.vec, self.mut
+        return v
     def names(self): return self.lean if isinstance(self.lean, list) else [self.lean]
+
+
+def is_tup(t): return isinstance(t, tuple) and t[0] == "tuple"
 
 
 class Val:
@@ -465,7 +598,7 @@ def assigned(x, acc=None, declared=None):
 class FnLower:
     def __init__(self, tr, fn, opts):
         self.tr, self.fn, self.opts = tr, fn, opts
-        self.name = fn["name"]
+        self.name = opts.get("lean", fn["name"])
         self.nv = 0; self.nt = 0; self.nloop = 0
         self.aux = []            # rendered auxiliary (loop) definitions
         self.loop_brk = []       # stack of K for `break`
@@ -481,6 +614,7 @@ class FnLower:
 
     # ---------------------------------------------------------------- types
     def wty(self, t, what="type"):
+        if t[0] == "name" and t[1] == "isize": return "i64"            # 64-bit target (the harness): isize = i64
         if t[0] == "name" and t[1] in ("u64", "usize", "u8", "u128", "bool", "i64"): return t[1]
         self.fail(f"{what} {t}")
 
@@ -573,21 +707,79 @@ class FnLower:
         if k >= len(var.lean): self.fail(f"constant index {k} out of bounds for `{var.rust}` (width {len(var.lean)})", ln)
         return var.lean[k]
 
+    def canon(self, e, env):
+        """canonical source text of an accessor expression (handle locals replaced by what they stand for); None if not of that shape"""
+        k = e[0]
+        def c(x): return self.canon(x, env)
+        def call_args(a):
+            parts = [c(x) for x in a]
+            return None if any(q is None for q in parts) else "(" + ", ".join(parts) + ")"
+        if k == "paren": q = c(e[1]); return None if q is None else f"({q})"
+        if k == "path":
+            if len(e[1]) == 1 and e[1][0] in env and env[e[1][0]].kind == "handle": return env[e[1][0]].lean
+            if len(e[1]) == 1 and e[1][0] in env and env[e[1][0]].kind != "handle": return None     # ordinary locals are not canonical
+            return "::".join(e[1])
+        if k == "num": return str(e[1])
+        if k == "float": return e[1]
+        if k == "mcall":
+            r, a = c(e[1]), call_args(e[3]); return None if r is None or a is None else f"{r}.{e[2]}{a}"
+        if k == "field": r = c(e[1]); return None if r is None else f"{r}.{e[2]}"
+        if k == "call": a = call_args(e[2]); return None if a is None else "::".join(e[1]) + a
+        if k == "cast":
+            r = c(e[1]); return None if r is None or e[2][0] != "name" else f"{r} as {e[2][1]}"
+        if k == "un": r = c(e[2]); return None if r is None else e[1] + r
+        if k == "deref": r = c(e[1]); return None if r is None else "*" + r
+        if k == "ref": r = c(e[2]); return None if r is None else "&" + r
+        if k == "bin":
+            l, r = c(e[2]), c(e[3]); return None if l is None or r is None else f"{l} {e[1]} {r}"
+        return None
+
+    def abstracted(self, e, env):
+        """the table's abstraction entry for e (an accessor chain / float test the table declares to be an input), if any"""
+        if not self.abs: return None
+        c = self.canon(e, env)
+        if c is None or c not in self.abs: return None
+        self.abs_used.add(c)
+        return (c, self.abs[c])
+
+    ABS_TY = {"Nat": "usize", "Int": "i64"}
+
     def ex_m(self, e, env, ops):
         k = e[0]
         if k == "val": return ("v", e[1])
         if k == "paren": return self.ex_m(e[1], env, ops)
+        ab = self.abstracted(e, env)
+        if ab is not None:
+            c, ent = ab
+            if ent is None: self.fail(f"`{c}` is an opaque handle but is used as a value")
+            name, ty = ent
+            if ty == "Bool": return ("v", Val(f"({name} = true)", "bool", [name]))
+            if ty in self.ABS_TY: return ("v", Val(name, self.ABS_TY[ty], [name]))
+            if ty in self.tr.enums_lean: return ("v", Val(name, ("enum", self.tr.enums_lean[ty]), [name]))
+            self.fail(f"abstraction `{c}` of type {ty}")
+        if k == "float": self.fail(f"float literal {e[1]} outside an abstracted expression")
+        if k == "structlit": return self.struct_lit(e, env, ops)
+        if k == "match": return self.match_value(e, env, ops)
+        if k in ("vec", "vecrep"): return self.vec_lit(e, env, ops)
         if k == "num":
             if e[2] not in (None, "u64", "usize", "u8"): self.fail(f"integer literal with suffix {e[2]}")
             return ("v", Val(str(e[1]), e[2] or "int"))
         if k == "bool": return ("v", Val("True" if e[1] else "False", "bool"))
         if k == "path":
-            if len(e[1]) != 1: self.fail(f"path {'::'.join(e[1])}")
+            if len(e[1]) != 1:
+                if e[1][-1] in self.consts: return ("v", Val(str(self.consts[e[1][-1]][0]), self.consts[e[1][-1]][1]))
+                self.fail(f"path {'::'.join(e[1])}")
+            if e[1][0] not in env and e[1][0] in self.consts: return ("v", Val(str(self.consts[e[1][0]][0]), self.consts[e[1][0]][1]))
             v = self.lookup(env, e[1][0])
             if v.kind == "w":
                 if not v.init: self.fail(f"read of uninitialised variable `{e[1][0]}`")
                 return ("v", Val(v.lean, v.ty, [v.lean]))
             if v.kind == "b": return ("v", Val(f"({v.lean} = true)", "bool", [v.lean]))
+            if v.kind == "mod": return ("v", Val(v.lean, "mod", [v.lean]))
+            if v.kind == "mulop": return ("v", Val(v.lean, ("struct", "MultiplyU64ModOperand"), [v.lean]))
+            if v.kind == "struct": return ("v", Val(v.lean, ("struct", v.ty), [v.lean]))
+            if v.kind == "val": return ("v", Val(v.lean, v.ty, [v.lean]))
+            if v.kind == "list": return ("v", Val(v.lean, "list", [v.lean]))
             self.fail(f"use of `{e[1][0]}` ({v.kind}) as a value")
         if k == "deref":
             b = strip_paren(e[1])
@@ -595,7 +787,9 @@ class FnLower:
                 v = env[b[1][0]]
                 if not v.init: self.fail(f"read of out-parameter `*{b[1][0]}` before assignment (internal: should be in-out)")
                 return ("v", Val(v.lean, v.ty, [v.lean]))
-            self.fail("dereference of something that is not a `&mut u64` parameter")
+            if b[0] == "path" and len(b[1]) == 1 and self.lookup(env, b[1][0]).kind in ("w", "mod", "struct", "mulop") and getattr(env[b[1][0]], "isref", False):
+                return self.ex_m(b, env, ops)             # `*r` of a shared reference parameter: the value
+            self.fail("dereference of something that is not a reference parameter")
         if k == "index":
             b = strip_paren(e[1]); ix = strip_paren(e[2])
             if b[0] == "mcall" and b[2] == "const_ratio" and not b[3]:
@@ -621,14 +815,23 @@ class FnLower:
             b = strip_paren(e[1])
             if b[0] == "path" and len(b[1]) == 1 and self.lookup(env, b[1][0]).kind == "mulop" and e[2] in ("operand", "quotient"):
                 return ("v", Val(f"{env[b[1][0]].lean}.{e[2]}", "u64", [env[b[1][0]].lean]))
+            if b[0] == "path" and len(b[1]) == 1 and self.lookup(env, b[1][0]).kind == "struct":
+                v = env[b[1][0]]; st = self.tr.structs[v.ty]
+                ft = dict(st["fields"]).get(e[2])
+                if ft is None: self.fail(f"struct {v.ty} has no field {e[2]}")
+                if ft in ("u64", "usize"): return ("v", Val(f"{v.lean}.{e[2]}", ft, [v.lean]))
+                if ft == "Modulus": return ("v", Val(f"{v.lean}.{e[2]}", "mod", [v.lean]))
+                self.fail(f"field {e[2]} of type {ft}")
             self.fail(f"field access .{e[2]}")
         if k == "mcall": return self.mcall(e, env, ops)
+        if k == "un" and e[1] == "-": return self.neg(e, env, ops)
         if k == "un":
             v = self.ex(e[2], env, ops)
             if e[1] == "!":
                 if v.ty == "bool": return ("v", Val(f"(¬ {v.atom})", "bool", v.deps))
                 if v.ty in ("u64", "usize"): return ("v", Val(f"(notW {v.atom})", v.ty, v.deps))
             self.fail(f"unary {e[1]} on {v.ty}")
+        if k == "un" and False: pass
         if k == "cast": return self.cast(e, env, ops)
         if k == "bin": return self.binop(e, env, ops)
         if k == "call": return self.call(e, env, ops)
@@ -640,7 +843,58 @@ class FnLower:
         if k == "if":
             code, ty = self.if_value(e, env)
             t = self.tmp(); ops.append(("letcode", t, code)); return ("v", Val(t, ty, [t]))
+        if k == "ref" and not e[1]: return self.ex_m(e[2], env, ops)        # `&x` of a value: shared borrow = the value
         self.fail(f"expression form `{k}`")
+
+    def struct_lit(self, e, env, ops):
+        _, name, fields = e
+        if name == "Self": name = self.fn["selfty"]
+        st = self.tr.structs.get(name)
+        if st is None: self.fail(f"struct literal of unregistered struct {name}")
+        if sorted(f for f, _ in fields) != sorted(f for f, _ in st["fields"]):
+            self.fail(f"struct literal {name}: fields {[f for f, _ in fields]} do not match the definition {[f for f, _ in st['fields']]}")
+        vals = self.seq([(lambda x=x: self.ex(x, env, ops)) for _, x in fields], ops)
+        deps = set(); parts = []
+        for (f, _), v in zip(fields, vals):
+            ft = dict(st["fields"])[f]
+            if ft in ("u64", "usize"):
+                if v.ty not in WORD: self.fail(f"field {f}: value of type {v.ty}")
+            elif ft == "Modulus":
+                if v.ty != "mod": self.fail(f"field {f}: value of type {v.ty}")
+            else: self.fail(f"field {f} of type {ft}")
+            deps |= v.deps; parts.append(f"{f} := {unparen(v.atom)}")
+        return ("v", Val("{ " + ", ".join(parts) + f" : {st['lean']} }}", ("struct", name), deps))
+
+    def match_value(self, e, env, ops):
+        """`match` on an enum-typed abstraction, as a value: lowered to an if-chain on (decidable) equalities; a missing `_` arm
+        makes the last arm the else branch (rustc has checked exhaustiveness; every pattern must still be a mapped variant)"""
+        _, scrut, arms = e
+        sv = self.ex(scrut, env, ops)
+        if not (isinstance(sv.ty, tuple) and sv.ty[0] == "enum"): self.fail(f"match on a value of type {sv.ty}")
+        ctors = self.tr.enums[sv.ty[1]]["ctors"]
+        chain = None
+        for j, (pats, body) in reversed(list(enumerate(arms))):
+            wild = any(p[0] == "wild" for p in pats)
+            if wild and j != len(arms) - 1: self.fail("`_` arm that is not the last one")
+            blk = body[1] if body[0] == "blockexpr" else ([], body)
+            conds = []
+            if not wild:
+                for p in pats:
+                    if p[0] != "path" or p[1][-1] not in ctors: self.fail(f"match pattern {p} (not a mapped variant of {sv.ty[1]})")
+                    conds.append(f"{sv.atom} = {ctors[p[1][-1]]}")
+            if chain is None: chain = blk[1] if (not blk[0] and blk[1] is not None) else ("blockexpr", blk); continue
+            cv = Val("(" + " ∨ ".join(conds) + ")", "bool", sv.deps)
+            chain = ("if", ("val", cv), blk, ([], chain))
+        return self.ex_m(chain, env, ops)
+
+    def vec_lit(self, e, env, ops):
+        if e[0] == "vecrep": self.fail("vec![x; n]")
+        vals = self.seq([(lambda x=x: self.ex(x, env, ops)) for x in e[1]], ops)
+        deps = set()
+        for v in vals:
+            if v.ty not in WORD: self.fail(f"vec! element of type {v.ty}")
+            deps |= v.deps
+        return ("v", Val("[" + ", ".join(unparen(v.atom) for v in vals) + "]", "list", deps))
 
     def modvar(self, e, env):
         e = strip_paren(e)
@@ -654,6 +908,25 @@ class FnLower:
             if m == "value" and not args: return ("v", Val(f"{lean}.value", "u64", [lean]))
             if m == "bit_count" and not args: return ("v", Val(f"{lean}.bits", "usize", [lean]))
             self.fail(f"Modulus method {m}()")
+        if recv[0] == "path" and len(recv[1]) == 1 and recv[1][0] in env and env[recv[1][0]].kind in ("struct", "mulop"):
+            v = env[recv[1][0]]; sname = v.ty if v.kind == "struct" else "MultiplyU64ModOperand"
+            sig = self.tr.msigs.get((sname, m))
+            if sig is None: self.fail(f"method {sname}::{m} is not a translated function")
+            return self.call_sig(sig, f"{sname}::{m}", [recv] + list(args), env, ops)
+        if recv[0] == "path" and len(recv[1]) == 1 and recv[1][0] in env and env[recv[1][0]].kind == "list" and getattr(env[recv[1][0]], "vec", False):
+            v = env[recv[1][0]]
+            if m == "push" and len(args) == 1:
+                a = self.ex(args[0], env, ops)
+                if a.ty not in WORD: self.fail(f"push of a {a.ty}")
+                ops.append(("let", v.lean, f"{v.lean} ++ [{unparen(a.atom)}]"))
+                return ("v", Val("()", "unit"))
+            if m == "reserve" and len(args) == 1:
+                self.ex(args[0], env, ops)                 # capacity hint: only the (checked) evaluation of the argument is observable
+                return ("v", Val("()", "unit"))
+        if m == "unsigned_abs" and not args:
+            a = self.ex(recv, env, ops)
+            if a.ty != "i64": self.fail("unsigned_abs on " + str(a.ty))
+            return ("v", Val(f"(Int.natAbs {a.atom})", "u64", a.deps))
         if recv[0] == "path" and len(recv[1]) == 1 and recv[1][0] in env and env[recv[1][0]].kind == "list":
             if m == "len" and not args: return ("v", Val(f"{env[recv[1][0]].lean}.length", "usize", [env[recv[1][0]].lean]))
             self.fail(f"slice method {m}()")
@@ -701,16 +974,28 @@ class FnLower:
         l, r = self.seq([lambda: self.ex(e[2], env, ops), lambda: self.ex(e[3], env, ops)], ops)
         deps = l.deps | r.deps
         if op in ("==", "!=", "<", ">", "<=", ">="):
-            if not ((l.ty in WORD and r.ty in WORD) or (l.ty == r.ty == "i64") or (l.ty == "i64" and r.ty == "int")):
+            if not ((l.ty in WORD and r.ty in WORD) or (l.ty == r.ty == "i64") or (l.ty == "i64" and r.ty == "int") or (l.ty == r.ty == "u128")
+                    or (op in ("==", "!=") and l.ty == r.ty and isinstance(l.ty, tuple) and l.ty[0] == "enum")):
                 self.fail(f"comparison of {l.ty} with {r.ty}")
             sym = {"==": "=", "!=": "≠", "<": "<", ">": ">", "<=": "≤", ">=": "≥"}[op]
             return ("v", Val(f"({l.atom} {sym} {r.atom})", "bool", deps))
         if l.ty == "u128" or r.ty == "u128":
             if op == "*" and l.widened and r.widened:       # product of two zero-extended u64 values: < 2^128, cannot overflow
                 return ("v", Val(f"({l.atom} * {r.atom})", "u128", deps))
-            if op == ">>" and l.ty == "u128" and strip_paren(e[3])[0] == "num" and strip_paren(e[3])[1] < 128:
-                return ("v", Val(f"({l.atom} >>> {r.atom})", "u128", deps))
-            self.fail(f"u128 arithmetic `{op}` (only `(a as u128) * (b as u128)` and `>> const` are modelled)")
+            if op in ("<<", ">>"):
+                rr = strip_paren(e[3])
+                if l.ty != "u128" or rr[0] != "num" or rr[1] >= 128: self.fail(f"u128 shift `{op}` by a non-constant (or >= 128) amount")
+                if op == ">>": return ("v", Val(f"({l.atom} >>> {rr[1]})", "u128", deps))
+                if l.widened and rr[1] <= 64: return ("v", Val(f"({l.atom} <<< {rr[1]})", "u128", deps))     # zero-extended u64 << k, k <= 64: < 2^128, exact
+                return ("v", Val(f"(({l.atom} <<< {rr[1]}) % B128)", "u128", deps))
+            if l.ty != "u128" or r.ty != "u128": self.fail(f"`{op}` on {l.ty}, {r.ty}")
+            if op in ("&", "|", "^"): return ("v", Val(f"({l.atom} { {'&': '&&&', '|': '|||', '^': '^^^'}[op]} {r.atom})", "u128", deps))
+            self.monadic_used = True
+            if op == "*": return ("m", f"ckMul128 {l.atom} {r.atom}", "u128")
+            if op == "+": return ("m", f"ckAdd128 {l.atom} {r.atom}", "u128")
+            if op == "-": return ("m", f"ckSub {l.atom} {r.atom}", "u128")
+            if op in ("/", "%"): return ("m", f"{'ckDiv' if op == '/' else 'ckMod'} {l.atom} {r.atom}", "u128")
+            self.fail(f"u128 arithmetic `{op}`")
         if l.ty == "i64" or r.ty == "i64": return self.binop_i64(op, l, r, deps)
         if l.ty not in WORD or r.ty not in WORD: self.fail(f"`{op}` on {l.ty}, {r.ty}")
         ty = l.ty if l.ty != "int" else r.ty
@@ -765,7 +1050,7 @@ class FnLower:
         return Code([], ("if", unparen(c.atom), ca, cb)), ty
 
     # ---------------------------------------------------------------- calls
-    def lv_target(self, a, env, what):
+    def lv_target(self, a, env, what, ops=None):
         """Lean name + setter for the place a `&mut` argument points to"""
         a = strip_paren(a)
         if a[0] == "ref":
@@ -787,6 +1072,14 @@ class FnLower:
                     def setinit():
                         if v.kind == "outarr": v.init[ix[1]] = True
                     return n, (lambda: True if v.kind == "arr" else v.init[ix[1]]), setinit
+            if b[0] == "path" and len(b[1]) == 1 and ops is not None and self.lookup(env, b[1][0]).kind == "list" and env[b[1][0]].mut:
+                # `&mut list[i]`: the bounds check happens where the argument is evaluated (it also yields the old value, for in-out
+                # parameters); the callee's result is written back with `List.set` after the call
+                v = env[b[1][0]]
+                i = self.word(self.ex(a[2], env, ops), "index")
+                t = self.tmp(); ops.append(("bind", t, f"idx {v.lean} {i.atom}")); self.monadic_used = True
+                def setinit(): ops.append(("let", v.lean, f"{v.lean}.set {i.atom} {t}"))
+                return t, (lambda: True), setinit
         self.fail(f"{what}: unsupported `&mut` argument")
 
     def arr_arg(self, a, env, width, what, mut):
@@ -808,13 +1101,47 @@ class FnLower:
             if not (ia() and ib()): self.fail("swap of an uninitialised variable")
             ops.append(("let", f"({la}, {lb})", f"({lb}, {la})"))
             return ("v", Val("()", "unit"))
-        sig = self.tr.sigs.get(fname)
+        sig = None
+        if len(path) >= 2 and (path[-2] == "Self" or path[-2] in self.tr.structs):
+            sig = self.tr.msigs.get((self.fn["selfty"] if path[-2] == "Self" else path[-2], fname))
+        if sig is None and not (len(path) >= 2 and path[-2][0].isupper()): sig = self.tr.sigs.get(fname)
         if sig is None: self.fail(f"call to `{'::'.join(path)}` which is not a translated function")
+        return self.call_sig(sig, fname, args, env, ops)
+
+    def qual(self, sig):
+        """Lean name of a translated function as seen from the file being generated"""
+        return sig["lean"] if sig.get("ns") in (None, self.tr.cur_ns) or sig["lean"].endswith(" fuel") else f"{sig['ns']}.{sig['lean']}"
+
+    def call_sig(self, sig, fname, args, env, ops):
         if len(args) != len(sig["params"]): self.fail(f"call to {fname}: arity")
         thunks = []; outs = []
         for a, p in zip(args, sig["params"]):
             kind = p[0]
-            if kind == "w":
+            if kind == "handle": continue
+            if kind in ("struct", "structmut"):
+                a2 = strip_paren(a)
+                if a2[0] == "ref": a2 = strip_paren(a2[2])
+                def th(a2=a2, p=p):
+                    v = self.ex(a2, env, ops)
+                    if v.ty != ("struct", p[1]): self.fail(f"call to {fname}: argument of type {v.ty} for a {p[1]} parameter")
+                    return v
+                thunks.append(th)
+                if kind == "structmut":
+                    if not (a2[0] == "path" and len(a2[1]) == 1 and self.lookup(env, a2[1][0]).kind == "struct"): self.fail(f"call to {fname}: `&mut self` receiver must be a local struct variable")
+                    outs.append((env[a2[1][0]].lean, lambda: None))
+            elif kind == "b":
+                def th(a=a):
+                    v = self.ex(a, env, ops)
+                    if v.ty != "bool": self.fail(f"call to {fname}: argument of type {v.ty} for a bool parameter")
+                    return Val(f"(decide {v.atom})", "bool", v.deps)
+                thunks.append(th)
+            elif kind == "wi":
+                def th(a=a):
+                    v = self.ex(a, env, ops)
+                    if v.ty != "i64": self.fail(f"call to {fname}: argument of type {v.ty} for a signed parameter")
+                    return v
+                thunks.append(th)
+            elif kind == "w":
                 def th(a=a, p=p):
                     v = self.ex(a, env, ops)
                     if v.ty not in WORD: self.fail(f"call to {fname}: argument of type {v.ty} for a {p[1]} parameter")
@@ -823,8 +1150,11 @@ class FnLower:
             elif kind in ("mod", "mulop"):
                 a2 = strip_paren(a)
                 if a2[0] == "ref": a2 = strip_paren(a2[2])
-                if not (a2[0] == "path" and len(a2[1]) == 1 and self.lookup(env, a2[1][0]).kind == kind): self.fail(f"call to {fname}: {kind} argument")
-                thunks.append(lambda a2=a2: Val(env[a2[1][0]].lean, kind))
+                def th(a2=a2, kind=kind):
+                    v = self.ex(a2, env, ops)
+                    if v.ty != ("mod" if kind == "mod" else ("struct", "MultiplyU64ModOperand")): self.fail(f"call to {fname}: {kind} argument of type {v.ty}")
+                    return v
+                thunks.append(th)
             elif kind == "slice":
                 v = self.arr_arg(a, env, p[1], f"call to {fname}", False)
                 for j in range(p[1]):
@@ -836,11 +1166,15 @@ class FnLower:
                 if not (a2[0] == "path" and len(a2[1]) == 1 and self.lookup(env, a2[1][0]).kind == "list"): self.fail(f"call to {fname}: slice argument")
                 thunks.append(lambda a2=a2: Val(env[a2[1][0]].lean, "list"))
             elif kind == "out":
-                lean, isinit, setinit = self.lv_target(a, env, f"call to {fname}")
-                if p[1]:
-                    if not isinit(): self.fail(f"call to {fname}: in-out argument is uninitialised")
-                    thunks.append(lambda n=lean: Val(n, "u64", [n]))
-                outs.append((lean, setinit))
+                cell = {}
+                def th(a=a, p=p, cell=cell):      # evaluated in argument order (a `&mut list[i]` target does a bounds check there)
+                    lean, isinit, setinit = self.lv_target(a, env, f"call to {fname}", ops)
+                    cell["x"] = (lean, setinit)
+                    if p[1]:
+                        if not isinit(): self.fail(f"call to {fname}: in-out argument is uninitialised")
+                        return Val(lean, "u64", [lean])
+                    return None
+                thunks.append(th); outs.append(cell)
             elif kind == "outarr":
                 v = self.arr_arg(a, env, p[1], f"call to {fname}", True)
                 for j in range(p[1]):
@@ -851,18 +1185,19 @@ class FnLower:
                         if v.kind == "outarr": v.init[j] = True
                     outs.append((v.lean[j], setinit))
             else: self.fail(f"call to {fname}: parameter kind {kind}")
-        vals = self.seq(thunks, ops)
-        callstr = " ".join([sig["lean"]] + [v.atom for v in vals])
+        vals = [v for v in self.seq(thunks, ops) if v is not None]
+        outs = [o["x"] if isinstance(o, dict) else o for o in outs]
+        callstr = " ".join([self.qual(sig)] + [v.atom for v in vals])
         rty = sig["ret"]
         if sig["monadic"]: self.monadic_used = True
-        if not outs and not isinstance(rty, tuple):
+        if not outs and not is_tup(rty):
             if sig["monadic"]: return ("m", callstr, rty)
             deps = set()
             for v in vals: deps |= v.deps
             return ("v", Val(f"({callstr})", rty, deps))
         names = [o[0] for o in outs]
         t = None
-        if isinstance(rty, tuple):
+        if is_tup(rty):
             ts = [self.tmp() for _ in rty[1]]
             pat = "(" + ", ".join(names + ts) + ")"
             ops.append(("bind" if sig["monadic"] else "let", pat, callstr))
@@ -875,6 +1210,14 @@ class FnLower:
         if t is None: return ("v", Val("()", "unit"))
         if rty == "bool": return ("v", Val(f"({t} = true)", "bool", [t]))
         return ("v", Val(t, rty, [t]))
+
+    def neg(self, e, env, ops):
+        inner = strip_paren(e[2])
+        if inner[0] == "num" and inner[2] in (None, "i64", "isize"): return ("v", Val(f"(-{inner[1]})", "i64"))
+        v = self.ex(e[2], env, ops)
+        if v.ty != "i64": self.fail(f"unary - on {v.ty}")
+        self.monadic_used = True
+        return ("m", f"ckI64 (-{v.atom})", "i64")
 
 
 def dict_copy(env): return {k: v.copy() for k, v in env.items()}
@@ -942,15 +1285,24 @@ class FnLower2(FnLower):
             if e[0] == "blockexpr":
                 rest = K(lambda env2, _v, ops2: self.stmts(stmts, i + 1, tail, env2, ops2, k, nested), self.live_rest(stmts, i + 1, tail, k), toplevel=k.toplevel)
                 return self.stmts(e[1][0], 0, e[1][1], env, ops, rest, True)
-            if e[0] == "call":
+            if e[0] in ("call", "mcall"):
                 self.ex(e, env, ops); return nxt()
+            if e[0] == "assert":
+                c = self.cond(e[1], env, ops)
+                self.monadic_used = True
+                ops_a = []
+                a = Code(ops_a, self.stmts(stmts, i + 1, tail, env, ops_a, k, nested))
+                return ("if", c, a, Code([], ("tailm", f".error .{self.panic_err}")))
+            if e[0] == "panic":
+                self.monadic_used = True
+                return ("tailm", f".error .{self.panic_err}")
             self.fail(f"expression statement `{e[0]}` (value discarded)", ln)
         self.fail(f"statement {kind}", ln)
 
     def let(self, s, env, ops, nested):
         _, pat, mut, ty, init, ln = s
         if not isinstance(pat, str): return self.let_tuple(s, env, ops, nested)
-        if nested and pat in env: self.fail(f"`let {pat}` shadows an outer variable inside a nested block", ln)
+        if nested and pat in env and pat in self.ever_assigned: self.fail(f"`let {pat}` shadows an outer variable (that is assigned somewhere) inside a nested block", ln)
         dty = None
         if ty is not None:
             if ty[0] == "arr": dty = "arr"
@@ -959,6 +1311,9 @@ class FnLower2(FnLower):
             if dty in (None, "u64", "usize"): env[pat] = Var("w", self.newvar(pat), dty or "u64", init=False, rust=pat); return
             self.fail(f"uninitialised `let` of type {dty}", ln)
         i0 = strip_paren(init)
+        ab = self.abstracted(i0, env)
+        if ab is not None and ab[1] is None:
+            env[pat] = Var("handle", ab[0], rust=pat); return          # a local standing for an opaque accessor chain
         if i0[0] == "array":
             vals = []
             base = self.newvar(pat)
@@ -987,6 +1342,9 @@ class FnLower2(FnLower):
             env[pat] = Var("b", n, "bool", rust=pat)
         elif t in WORD: env[pat] = Var("w", n, (dty if dty in WORD else None) or t, rust=pat)
         elif t in ("i64", "u128"): env[pat] = Var("w", n, t, rust=pat)
+        elif isinstance(t, tuple) and t[0] == "struct": env[pat] = Var("struct", n, t[1], rust=pat)
+        elif isinstance(t, tuple) and t[0] == "enum": env[pat] = Var("val", n, t, rust=pat)
+        elif t == "list": env[pat] = Var("list", n, rust=pat); env[pat].vec = True
         else: self.fail(f"`let` of a value of type {t}", ln)
         ops.extend(ops1)
 
@@ -994,10 +1352,10 @@ class FnLower2(FnLower):
         _, pat, mut, ty, init, ln = s
         if init is None: self.fail("tuple `let` without initialiser", ln)
         v = self.ex(init, env, ops)
-        if not isinstance(v.ty, tuple) or len(v.ty[1]) != len(pat[1]): self.fail("tuple pattern does not match the value", ln)
+        if not is_tup(v.ty) or len(v.ty[1]) != len(pat[1]): self.fail("tuple pattern does not match the value", ln)
         for name, part, t in zip(pat[1], v.parts, v.ty[1]):
             if name == "_": continue
-            if nested and name in env: self.fail(f"`let {name}` shadows an outer variable inside a nested block", ln)
+            if nested and name in env and name in self.ever_assigned: self.fail(f"`let {name}` shadows an outer variable (that is assigned somewhere) inside a nested block", ln)
             if t not in WORD and t != "i64": self.fail(f"tuple component of type {t}", ln)
             n = self.newvar(name); ops.append(("let", n, part)); env[name] = Var("w", n, t, rust=name)
 
@@ -1022,6 +1380,23 @@ class FnLower2(FnLower):
 
     def assign(self, s, env, ops):
         _, lhs, op, rhs, ln = s
+        l0 = strip_paren(lhs)
+        if l0[0] == "field" and strip_paren(l0[1])[0] == "path" and len(strip_paren(l0[1])[1]) == 1 and self.lookup(env, strip_paren(l0[1])[1][0], ln).kind == "struct":
+            v = env[strip_paren(l0[1])[1][0]]; ft = dict(self.tr.structs[v.ty]["fields"]).get(l0[2])
+            if ft not in ("u64", "usize"): self.fail(f"assignment to field {l0[2]} of type {ft}", ln)
+            if op is not None: self.fail("compound assignment to a struct field", ln)
+            r = self.ex(rhs, env, ops)
+            if r.ty not in WORD: self.fail(f"assignment of {r.ty} to field {l0[2]}", ln)
+            ops.append(("let", v.lean, f"{{ {v.lean} with {l0[2]} := {unparen(r.atom)} }}"))
+            return
+        if l0[0] == "index" and strip_paren(l0[1])[0] == "path" and len(strip_paren(l0[1])[1]) == 1 and self.lookup(env, strip_paren(l0[1])[1][0], ln).kind == "list" \
+                and env[strip_paren(l0[1])[1][0]].mut:
+            v = env[strip_paren(l0[1])[1][0]]
+            if op is not None: self.fail("compound assignment to a slice element", ln)
+            r, i = self.seq([lambda: self.ex(rhs, env, ops), lambda: self.ex(l0[2], env, ops)], ops)     # value first, then the place
+            if r.ty not in WORD or i.ty not in WORD: self.fail(f"slice element assignment of {r.ty} at index of type {i.ty}", ln)
+            ops.append(("bind", v.lean, f"setIdx {v.lean} {i.atom} {r.atom}")); self.monadic_used = True
+            return
         lean, ty, isinit, setinit = self.lhs_target(lhs, env, ln)
         if op is None:
             t = self.ex_into(lean, rhs, env, ops)
@@ -1037,7 +1412,7 @@ class FnLower2(FnLower):
         out = []
         for n in names:
             v = env[n]
-            if v.kind in ("w", "b", "out"): out.append(v.lean)
+            if v.kind in ("w", "b", "out", "struct", "list"): out.append(v.lean)
             elif v.kind in ("arr", "outarr"): out.extend(v.lean)
             else: self.fail(f"variable `{n}` ({v.kind}) assigned inside a branch")
         return out
@@ -1109,13 +1484,16 @@ class FnLower2(FnLower):
         for n in carried + captured:
             if not self.all_init(env, [n]): self.fail(f"variable `{n}` is live across the loop but not initialised before it", ln)
         for n in carried:
-            if env[n].kind not in ("w", "b", "arr", "out", "outarr", "list"): self.fail(f"loop-carried variable `{n}` of kind {env[n].kind}", ln)
+            if env[n].kind not in ("w", "b", "arr", "out", "outarr", "list", "struct"): self.fail(f"loop-carried variable `{n}` of kind {env[n].kind}", ln)
         cap_names = []; cap_binders = []
         for n in captured:
             v = env[n]
+            if v.kind == "handle": continue
             nm = [v.lean] if v.kind == "cr" else v.names()
             tyl = "Modulus" if v.kind == "cr" else ("Int" if v.ty == "i64" else self.LEANTY.get(v.kind, "Nat"))
             for x in nm:
+                if v.kind == "struct": tyl = self.tr.structs[v.ty]["lean"]
+                if v.kind == "val" and isinstance(v.ty, tuple) and v.ty[0] == "enum": tyl = self.tr.enums[v.ty[1]]["lean"]
                 if x not in cap_names: cap_names.append(x); cap_binders.append(f"({x} : {tyl})")
         car_names = []; car_types = []
         for n in carried:
@@ -1160,13 +1538,16 @@ class FnLower2(FnLower):
             if not self.all_init(env, [n]):
                 self.fail(f"variable `{n}` is live across the loop but not initialised before it", ln)
         for n in carried:
-            if env[n].kind not in ("w", "b", "arr", "out", "outarr", "list"): self.fail(f"loop-carried variable `{n}` of kind {env[n].kind}", ln)
+            if env[n].kind not in ("w", "b", "arr", "out", "outarr", "list", "struct"): self.fail(f"loop-carried variable `{n}` of kind {env[n].kind}", ln)
         cap_names = []; cap_binders = []
         for n in captured:
             v = env[n]
+            if v.kind == "handle": continue
             nm = [v.lean] if v.kind == "cr" else v.names()
             tyl = "Modulus" if v.kind == "cr" else ("Int" if v.ty == "i64" else self.LEANTY.get(v.kind, "Nat"))
             for x in nm:
+                if v.kind == "struct": tyl = self.tr.structs[v.ty]["lean"]
+                if v.kind == "val" and isinstance(v.ty, tuple) and v.ty[0] == "enum": tyl = self.tr.enums[v.ty[1]]["lean"]
                 if x not in cap_names: cap_names.append(x); cap_binders.append(f"({x} : {tyl})")
         car_names = []; car_types = []
         for n in carried:
@@ -1271,14 +1652,48 @@ class FnTranslate(FnLower2):
         params = []; self.binders = []; env = {}
         body = fn["body"]
         np = 0
+        # names that are the target of an assignment / `&mut` borrow somewhere in the body: only these take part in branch merges and
+        # loop states, so only these must not be shadowed inside nested blocks
+        a_all, _d = assigned([fn["body"][0], fn["body"][1]])
+        self.ever_assigned = {x if isinstance(x, str) else x[1] for x in a_all}
+        self.abs = {}; self.abs_used = set()
+        for ent in self.opts.get("abstract", []):
+            if ent[0] in self.abs: self.fail(f"abstraction `{ent[0]}` listed twice")
+            self.abs[ent[0]] = None if len(ent) == 1 or ent[1] is None else (ent[1], ent[2])
+        self.consts = {c: self.tr.const(rel, c) for c, rel in self.opts.get("consts", {}).items()}
+        self.panic_err = self.opts.get("panic", "refused")
+        self_binders = []
         for (pn, pt, mut) in fn["params"]:
             lean = f"a{np}"; np += 1; self.namemap.append(f"{lean}={pn}")
+            pt = self.rty(pt)
+            if pt[0] == "selfty":
+                st = self.tr.structs.get(fn["selfty"])
+                if st is None:
+                    if not self.abs: self.fail(f"`self` of unregistered struct {fn['selfty']} (and no abstraction table)")
+                    params.append(("handle",)); env[pn] = Var("handle", "self", rust=pn); np -= 1; self.namemap.pop(); continue
+                if pt[1] == "val": self.fail("by-value `self`")
+                params.append(("structmut" if pt[1] == "mut" else "struct", fn["selfty"]))
+                env[pn] = Var("struct", lean, fn["selfty"], rust=pn); env[pn].isref = True
+                self.binders.append(f"({lean} : {st['lean']})")
+                continue
+            if pt[0] == "ref" and not pt[1] and pt[2][0] == "name" and pt[2][1] in ("u64", "usize"): pt = pt[2]; isref = True     # `&u64`: a word
+            else: isref = False
             if pt[0] == "name" and pt[1] in ("u64", "usize", "u8"):
-                params.append(("w", pt[1])); env[pn] = Var("w", lean, pt[1], rust=pn); self.binders.append(f"({lean} : Nat)")
+                params.append(("w", pt[1])); env[pn] = Var("w", lean, pt[1], rust=pn); env[pn].isref = isref; self.binders.append(f"({lean} : Nat)")
+            elif pt[0] == "name" and pt[1] in ("i64", "isize"):
+                params.append(("wi", "i64")); env[pn] = Var("w", lean, "i64", rust=pn); self.binders.append(f"({lean} : Int)")
+            elif pt[0] == "name" and pt[1] == "bool":
+                params.append(("b",)); env[pn] = Var("b", lean, "bool", rust=pn); self.binders.append(f"({lean} : Bool)")
+            elif self.abs and (pt == ("name", "f64") or (pt[0] == "ref" and not pt[1] and pt[2][0] == "name" and pt[2][1] in self.opts.get("opaque", []))):
+                # an opaque object: usable only inside the accessor expressions the table abstracts
+                params.append(("handle",)); env[pn] = Var("handle", pn, rust=pn); np -= 1; self.namemap.pop()
+            elif pt[0] == "ref" and not pt[1] and pt[2][0] == "name" and pt[2][1] in self.tr.structs and pt[2][1] != "MultiplyU64ModOperand":
+                params.append(("struct", pt[2][1])); env[pn] = Var("struct", lean, pt[2][1], rust=pn); env[pn].isref = True
+                self.binders.append(f"({lean} : {self.tr.structs[pt[2][1]]['lean']})")
             elif pt[0] == "ref" and not pt[1] and pt[2] == ("name", "Modulus"):
-                params.append(("mod",)); env[pn] = Var("mod", lean, rust=pn); self.binders.append(f"({lean} : Modulus)")
+                params.append(("mod",)); env[pn] = Var("mod", lean, rust=pn); env[pn].isref = True; self.binders.append(f"({lean} : Modulus)")
             elif pt[0] == "ref" and not pt[1] and pt[2] == ("name", "MultiplyU64ModOperand"):
-                params.append(("mulop",)); env[pn] = Var("mulop", lean, rust=pn); self.binders.append(f"({lean} : MulOperand)")
+                params.append(("mulop",)); env[pn] = Var("mulop", lean, rust=pn); env[pn].isref = True; self.binders.append(f"({lean} : MulOperand)")
             elif pt[0] == "ref" and not pt[1] and pt[2][0] == "arr" and pt[2][1] == ("name", "u64"):
                 w = const_index_width(body, pn)
                 if w is None and pt[2][2] is None:
@@ -1293,7 +1708,10 @@ class FnTranslate(FnLower2):
                 params.append(["out", None]); env[pn] = Var("out", lean, "u64", init=False, rust=pn)
             elif pt[0] == "ref" and pt[1] and pt[2][0] == "arr" and pt[2][1] == ("name", "u64"):
                 w = const_index_width(body, pn)
-                if w is None: self.fail(f"`&mut [u64]` parameter `{pn}` is not only indexed by constants")
+                if w is None:
+                    if pt[2][2] is not None: self.fail(f"`&mut [u64; N]` parameter `{pn}` is not only indexed by constants")
+                    params.append(("mlist",)); env[pn] = Var("list", lean, rust=pn); env[pn].mut = True
+                    self.binders.append(f"({lean} : List Nat)"); continue
                 names = [f"{lean}_{j}" for j in range(w)]
                 params.append(["outarr", w, None]); env[pn] = Var("outarr", names, "u64", init=[False] * w, rust=pn)
             else: self.fail(f"parameter `{pn}` of type {pt}")
@@ -1301,7 +1719,10 @@ class FnTranslate(FnLower2):
         self.ret_live = set()
         pre_binders = self.binders; self.binders = []; bi = 0
         for (pn, pt, mut), p in zip(fn["params"], params):
-            if p[0] == "out":
+            if p[0] in ("structmut", "mlist"):
+                self.ret_live.add(pn); self.binders += pre_binders[bi:bi + 1]; bi += 1
+            elif p[0] == "handle": pass
+            elif p[0] == "out":
                 io = self.inout_keys(pn, None)
                 p[1] = io[pn]; v = env[pn]
                 if p[1]: v.init = True; self.binders.append(f"({v.lean} : Nat)")
@@ -1316,21 +1737,41 @@ class FnTranslate(FnLower2):
                 cnt = p[1] if p[0] == "slice" else 1
                 self.binders += pre_binders[bi:bi + cnt]; bi += cnt
         assert bi == len(pre_binders)
-        rt = fn["ret"]
+        # abstracted inputs (table order) come last
+        for key, ent in self.abs.items():
+            if ent is not None: self.binders.append(f"({ent[0]} : {ent[1]})")
+        rt = self.rty(fn["ret"])
         if rt == ("tuple", []): ret = "unit"
         elif rt[0] == "name" and rt[1] in ("u64", "usize", "u8", "bool"): ret = rt[1]
+        elif rt[0] == "name" and rt[1] in ("i64", "isize"): ret = "i64"
+        elif rt[0] == "name" and rt[1] in self.tr.structs: ret = ("struct", rt[1])
+        elif rt == ("vec", ("name", "usize")) or rt == ("vec", ("name", "u64")): ret = "list"
         elif rt[0] == "tuple" and all(t[0] == "name" and t[1] in ("u64", "usize", "i64") for t in rt[1]): ret = ("tuple", [t[1] for t in rt[1]])
         else: self.fail(f"return type {rt}")
         self.ret = ret
-        self.outs = [pn for (pn, pt, mut), p in zip(fn["params"], params) if p[0] in ("out", "outarr")]
+        self.outs = [pn for (pn, pt, mut), p in zip(fn["params"], params) if p[0] in ("out", "outarr", "structmut", "mlist")]
         tys = []
-        for pn in self.outs: tys += ["Nat"] * len(env[pn].names())
-        if isinstance(ret, tuple): tys += ["Int" if t == "i64" else "Nat" for t in ret[1]]
-        elif ret != "unit": tys.append("Bool" if ret == "bool" else "Nat")
+        for pn in self.outs: tys += [self.tr.structs[env[pn].ty]["lean"]] if env[pn].kind == "struct" else ["List Nat"] if env[pn].kind == "list" else ["Nat"] * len(env[pn].names())
+        if is_tup(ret): tys += ["Int" if t == "i64" else "Nat" for t in ret[1]]
+        elif isinstance(ret, tuple) and ret[0] == "struct": tys.append(self.tr.structs[ret[1]]["lean"])
+        elif ret == "list": tys.append("List Nat")
+        elif ret != "unit": tys.append("Bool" if ret == "bool" else "Int" if ret == "i64" else "Nat")
         if not tys: self.fail("function without result")
         self.ret_lean = " × ".join(tys)
         self.params = [tuple(p) if not isinstance(p, tuple) else p for p in params]
         return env
+
+    def rty(self, t):
+        """resolve `Self`, `Self::Assoc` and the impl's associated types"""
+        if t[0] == "name":
+            al = self.fn.get("aliases") or {}
+            if t[1] in al: return ("name", al[t[1]])
+            if t[1] == "Self" and self.fn.get("selfty"): return ("name", self.fn["selfty"])
+            return t
+        if t[0] == "ref": return ("ref", t[1], self.rty(t[2]))
+        if t[0] == "arr": return ("arr", self.rty(t[1]), t[2])
+        if t[0] == "vec": return ("vec", self.rty(t[1]))
+        return t
 
     def inout_keys(self, pn, width):
         """which parts of a `&mut` parameter are read before the function has definitely assigned them (conservative)"""
@@ -1409,8 +1850,9 @@ class FnTranslate(FnLower2):
         env = self.signature()
         force = self.opts.get("monadic", False)
         # registered before lowering so that recursive calls resolve (monadic flag fixed by the table for recursive functions)
-        sig = {"lean": self.name, "params": self.params, "ret": self.ret, "monadic": force, "ret_lean": self.ret_lean}
-        self.tr.sigs[self.name] = sig
+        sig = {"lean": self.name, "params": self.params, "ret": self.ret, "monadic": force, "ret_lean": self.ret_lean, "ns": self.tr.cur_ns}
+        if self.fn.get("selfty"): self.tr.msigs[(self.fn["selfty"], self.fn["name"])] = sig
+        else: self.tr.sigs[self.fn["name"]] = sig
         def kfun(env2, val, ops):
             parts = []
             for pn in self.outs:
@@ -1419,8 +1861,11 @@ class FnTranslate(FnLower2):
                 parts += v.names()
             if self.ret != "unit":
                 if val is None: self.fail("missing return value")
-                if isinstance(self.ret, tuple):
-                    if not isinstance(val.ty, tuple) or len(val.ty[1]) != len(self.ret[1]): self.fail("tuple function returns " + str(val.ty))
+                if isinstance(self.ret, tuple) and self.ret[0] == "struct" or self.ret in ("list", "i64"):
+                    if val.ty != self.ret and not (self.ret == "i64" and val.ty == "int"): self.fail(f"function returning {self.ret} returns {val.ty}")
+                    parts.append(val.atom)
+                elif is_tup(self.ret):
+                    if not is_tup(val.ty) or len(val.ty[1]) != len(self.ret[1]): self.fail("tuple function returns " + str(val.ty))
                     for t, want in zip(val.ty[1], self.ret[1]):
                         if not (t == want or (t in WORD and want in WORD) or (t == "int" and want == "i64")): self.fail(f"tuple component {t} returned as {want}")
                     parts += val.parts
@@ -1442,12 +1887,14 @@ class FnTranslate(FnLower2):
         monadic = force or self.monadic_used
         if rec and monadic != force: self.fail("recursive function: set `monadic` in the table to what the body needs")
         sig["monadic"] = monadic
+        unused = [c for c, ent in self.abs.items() if c not in self.abs_used]
+        if unused: self.fail(f"abstraction table entries never matched: {unused}")
         if rec: return self.render_rec(code, monadic, rec, env)
         return self.render(code, monadic)
 
     def render_rec(self, code, mon, rec, env):
         fn = self.fn; out = []
-        rty = f"R ({self.ret_lean})" if mon and "×" in self.ret_lean else (f"R {self.ret_lean}" if mon else self.ret_lean)
+        rty = f"R ({self.ret_lean})" if mon and ("×" in self.ret_lean or " " in self.ret_lean) else (f"R {self.ret_lean}" if mon else self.ret_lean)
         names = [f"a{i}" for i in range(len(self.params))]
         ex = rec.get("exhausted", "error")
         if ex == "error":
@@ -1512,7 +1959,10 @@ class FnTranslate(FnLower2):
             elif o[0] == "bind": lines.append(f"{sp}let {o[1]} ← {o[2]}")
             elif o[0] == "letcode":
                 if o[2].pure(mon): lines.append(f"{sp}let {o[1]} := {self.inline(o[2], mon)}")
-                else: lines.append(f"{sp}let {o[1]} ← {self.term_m(o[2], ind, mon)}")
+                else:
+                    # parenthesised: inside `do`, an unparenthesised `let x ← if ..` is a do-`if` (elaborated with join points)
+                    t = self.term_m(o[2], ind, mon)
+                    lines.append(f"{sp}let {o[1]} ← {'(' + t + ')' if t.startswith('if ') else t}")
         t = code.term
         if t[0] == "ret": lines.append(sp + self.pure_of(Code([], t), mon))
         elif t[0] in ("tailm", "call"): lines.append(sp + t[1])
@@ -1542,7 +1992,7 @@ class FnTranslate(FnLower2):
 
     def render(self, code, mon):
         fn = self.fn; out = []
-        rty = f"R ({self.ret_lean})" if mon and "×" in self.ret_lean else (f"R {self.ret_lean}" if mon else self.ret_lean)
+        rty = f"R ({self.ret_lean})" if mon and ("×" in self.ret_lean or " " in self.ret_lean) else (f"R {self.ret_lean}" if mon else self.ret_lean)
         for a in self.aux:
             out.append(f"/-- loop at line {a['line']} of `{fn['name']}` ({fn['file']}); fuel {a['fuel']} at the call site -/")
             out.append(f"def {a['name']} {' '.join(a['binders'])} : Nat → {' → '.join(a['car_types'])} → {rty}".replace("  ", " "))
@@ -1575,11 +2025,19 @@ def ckMod (a b : Nat) : R Nat := if b = 0 then .error .other else .ok (a % b)
 def clz64 (v : Nat) : Nat := 64 - (if v = 0 then 0 else Nat.log2 v + 1)
 /-- `v as u64` for an `i64` value (two's complement reinterpretation) -/
 def asU64 (v : Int) : Nat := (v % 18446744073709551616).toNat
+/-- u128 arithmetic (`u128` = Nat, invariant `< 2^128`): checked `*` and `+`; `-` is `ckSub`, `/ %` are `ckDiv`/`ckMod` -/
+def B128 : Nat := 340282366920938463463374607431768211456
+def ckMul128 (a b : Nat) : R Nat := if a * b < B128 then .ok (a * b) else .error .overflow
+def ckAdd128 (a b : Nat) : R Nat := if a + b < B128 then .ok (a + b) else .error .overflow
+/-- bounds-checked slice write -/
+def setIdx (l : List Nat) (i v : Nat) : R (List Nat) := if i < l.length then .ok (l.set i v) else .error .oob
 /-- bounds-checked slice read -/
 def idx (l : List Nat) (i : Nat) : R Nat := match l[i]? with | some x => .ok x | none => .error .oob
 """
 
-US = "src/util/uintsmallmod.rs"; UB = "src/util/basic.rs"; UN = "src/util/number_theory.rs"
+ENUMS = {"SchemeType": {"lean": "Scheme", "ctors": {"BFV": ".bfv", "BGV": ".bgv", "CKKS": ".ckks"}}}
+
+US = "src/util/uintsmallmod.rs"; UB = "src/util/basic.rs"; UN = "src/util/number_theory.rs"; UT = "src/util/ntt.rs"
 # functions to translate, callees first.  `monadic`: force the result into `R` (to match the hand model's type; wrapping a total
 # function in `pure` is always sound).  `loops`: one entry per loop in source order.
 TABLE = [
@@ -1610,34 +2068,163 @@ TABLE = [
     {"file": UB, "fn": "add_u128_inplace", "model": "addU128 (+ carry out)"},
     {"file": US, "fn": "dot_product_mod", "model": "dotProductMod"},
     {"file": US, "fn": "exponentiate_u64_mod", "model": "exponentiateMod", "loops": [{"fuel": 64, "exhausted": "break"}]},
+    # phase 2: multi-word loops writing through `&mut [u64]` (value semantics: the slice is an input and the first result)
+    {"file": UB, "fn": "add_uint", "model": "addUint a b result.len()"},
+    {"file": UB, "fn": "sub_uint", "model": "subUint a b result.len()"},
+    {"file": UB, "fn": "add_uint_u64", "model": "addUintU64"},
+    {"file": UB, "fn": "sub_uint_u64", "model": "subUintU64"},
+    # phase 2: MultiplyU64ModOperand::new (u128 division, struct literal, `&mut self` method)
+    {"file": UB, "fn": "divide_u128_u64_inplace", "model": "(inlined in MulOperand.new)"},
+    {"file": US, "struct": "MultiplyU64ModOperand", "model": "MulOperand", "fields": ["operand", "quotient"]},
+    {"file": US, "fn": "set_quotient", "impl": "MultiplyU64ModOperand", "lean": "mulop_set_quotient", "model": "MulOperand.new"},
+    {"file": US, "fn": "new", "impl": "MultiplyU64ModOperand", "lean": "mulop_new", "model": "MulOperand.new"},
 ]
+
+# Gen/NttFns.lean: the lazy modular arithmetic of the NTT butterflies (src/util/ntt.rs, `impl Arithmetic for ModArithLazy`)
+AR = "Arithmetic for ModArithLazy"
+TABLE_NTT = [
+    {"file": UN, "fn": "is_primitive_root", "model": "isPrimitiveRoot (Model/NTT.lean)"},
+    {"file": UT, "struct": "ModArithLazy"},
+    {"file": UT, "fn": "new", "impl": "ModArithLazy", "lean": "mal_new", "model": "modArithLazy (two_times_modulus = 2 * value)"},
+    {"file": UT, "fn": "add", "impl": AR, "lean": "mal_add", "model": "(modArithLazy m).add"},
+    {"file": UT, "fn": "sub", "impl": AR, "lean": "mal_sub", "model": "(modArithLazy m).sub"},
+    {"file": UT, "fn": "mul_root", "impl": AR, "lean": "mal_mul_root", "model": "(modArithLazy m).mulRoot"},
+    {"file": UT, "fn": "mul_scalar", "impl": AR, "lean": "mal_mul_scalar", "model": "(modArithLazy m).mulRoot"},
+    {"file": UT, "fn": "guard", "impl": AR, "lean": "mal_guard", "model": "(modArithLazy m).guard"},
+]
+
 
 
 class Translator:
     def __init__(self, repo, table=None):
-        self.repo = repo; self.table = TABLE if table is None else table; self.sigs = {}
+        self.repo = repo; self.table = TABLE if table is None else table; self.sigs = {}; self.msigs = {}
+        self.cur_ns = "GenW"
+        # Rust struct -> Lean structure.  MultiplyU64ModOperand is the hand model's `MulOperand` (Model/Word.lean): the field list is
+        # checked against the source; other structs (table entries `struct`) are emitted into the generated file.
+        self.structs = {}; self.enums = dict(ENUMS); self.enums_lean = {v["lean"]: k for k, v in ENUMS.items()}
+        self._consts = {}
 
-    def run(self):
-        files = sorted({e["file"] for e in self.table})
+    def const(self, rel, name):
+        """value and type of `const NAME: T = <integer literal>;` in file rel"""
+        if (rel, name) not in self._consts:
+            src = strip_comments(open(os.path.join(self.repo, rel)).read())
+            ms = re.findall(r"\bconst\s+%s\s*:\s*(\w+)\s*=\s*([0-9][0-9a-fA-Fx_]*)\s*;" % re.escape(name), src)
+            if len(ms) != 1: raise Unsupported(f"constant {name}: {len(ms)} literal definitions in {rel}")
+            if ms[0][0] not in ("usize", "u64"): raise Unsupported(f"constant {name} of type {ms[0][0]}")
+            self._consts[(rel, name)] = (parse_int(ms[0][1])[0], ms[0][0])
+        return self._consts[(rel, name)]
+
+    def struct_entry(self, ent):
+        fields = parse_struct(self.repo, ent["file"], ent["struct"])
+        for f, t in fields:
+            if t not in ("u64", "usize", "Modulus"): raise Unsupported(f"struct {ent['struct']}: field {f} of type {t}")
+        if "model" in ent:      # an existing hand-model structure: same field names, in order
+            if [f for f, _ in fields] != ent["fields"]: raise Unsupported(f"struct {ent['struct']}: fields {fields} differ from the hand model's {ent['fields']}")
+            self.structs[ent["struct"]] = {"lean": ent["model"], "fields": fields}
+            return f"-- struct `{ent['struct']}` ({ent['file']}) = `{ent['model']}` of the hand model (fields {', '.join(f for f, _ in fields)})\n"
+        self.structs[ent["struct"]] = {"lean": ent["struct"], "fields": fields}
+        out = [f"/-- struct `{ent['struct']}`  {ent['file']} -/", f"structure {ent['struct']} where"]
+        out += [f"  {f} : {'Modulus' if t == 'Modulus' else 'Nat'}" for f, t in fields]
+        return "\n".join(out) + "\n"
+
+    def run_file(self, spec):
+        """spec: {"ns", "imports", "table", "opens"} -> text of one generated file"""
+        self.cur_ns = spec["ns"]
+        files = sorted({e["file"] for e in spec["table"]})
         out = ["/- GENERATED by tools/rs2lean.py (via tools/extract.py) from " + ", ".join(files) + " -- do not edit.",
                "   One definition per Rust function, conventions of Heathcliff/Model/Word.lean (see TRANSLATOR.md):",
                "   u64 = Nat, plain + - * = ckAdd/ckSub/ckMul in R, wrapping_* = wAdd/wSub/wMul, `&mut` results are returned",
-               "   (out-parameters first, then the return value); locals are named by position (v1, v2, ...; parameters a0, a1, ...). -/",
-               "import Heathcliff.Model.Word", "", "set_option linter.unusedVariables false", "", "namespace HC.GenW", "open HC", "", PRELUDE]
-        for ent in self.table:
+               "   (out-parameters first, then the return value); locals are named by position (v1, v2, ...; parameters a0, a1, ...). -/"]
+        out += [f"import {m}" for m in spec["imports"]] + ["", "set_option linter.unusedVariables false", "", f"namespace HC.{spec['ns']}", "open HC"]
+        out += [f"open {o}" for o in spec.get("opens", [])] + ["", spec.get("prelude", "")]
+        for ent in spec["table"]:
             try:
-                fn = parse_fn(self.repo, ent["file"], ent["fn"])
+                if "struct" in ent: out.append(self.struct_entry(ent)); continue
+                fn = parse_fn(self.repo, ent["file"], ent["fn"], ent.get("impl"))
                 out.append(FnTranslate(self, fn, ent).translate())
             except Unsupported as ex:
-                raise Unsupported(f"rs2lean: {ent['file']}: fn {ent['fn']}: {ex}")
-        out += ["end HC.GenW", ""]
+                raise Unsupported(f"rs2lean: {ent['file']}: {'fn ' + ent['fn'] if 'fn' in ent else 'struct ' + ent['struct']}: {ex}")
+        out += [f"end HC.{spec['ns']}", ""]
         return "\n".join(out)
 
+    def run(self):
+        return self.run_file({"ns": "GenW", "imports": ["Heathcliff.Model.Word"], "table": self.table, "prelude": PRELUDE})
 
-def gen_wordfns(repo):
-    try: return Translator(repo).run()
+
+FILES = []      # filled below: (file name, spec) in dependency order
+
+
+def gen_all(repo):
+    """all generated files of the translator: {file name: text}"""
+    try:
+        tr = Translator(repo); res = {}
+        for name, spec in FILES: res[name] = tr.run_file(spec)
+        return res
     except Unsupported as ex: raise SystemExit("extract.py: " + str(ex))
 
 
+def gen_wordfns(repo): return gen_all(repo)["WordFns.lean"]
+
+
+
+# Gen/ValidFns.lean: decision logic (src/evaluator.rs, src/valcheck.rs).  The objects these functions inspect (contexts, ciphertexts,
+# floats) are not modelled by the translator: every accessor chain the function evaluates on them is declared here as an INPUT of the
+# generated function (`abstract`: canonical source text -> (Lean binder, type); an entry without a binder is an opaque handle that may
+# only occur inside other listed chains).  Locals that merely name a handle are substituted away, so renaming them changes nothing.
+EV = "src/evaluator.rs"; VC = "src/valcheck.rs"
+CD = "context.get_context_data(self.parms_id()).unwrap()"
+TABLE_VALID = [
+    {"file": EV, "fn": "is_scale_within_bounds", "impl": "Evaluator", "model": "ckksScaleOk (Model/Evaluator.lean)", "opaque": ["ContextData"],
+     "abstract": [("context_data.parms().scheme()", "scheme", "Scheme"),
+                  ("context_data.parms().plain_modulus().bit_count()", "plainBits", "Nat"),
+                  ("context_data.total_coeff_modulus_bit_count()", "totalBits", "Nat"),
+                  ("scale <= 0.0", "scaleNonPos", "Bool"),
+                  ("scale.log2() as isize", "scaleLog2", "Int")]},
+    {"file": VC, "fn": "is_metadata_valid_for", "impl": "ValCheck for Ciphertext", "lean": "ct_is_metadata_valid_for", "model": "ctValid (metadata part)",
+     "opaque": ["HeContext"], "consts": {"HE_CIPHERTEXT_SIZE_MIN": UB, "HE_CIPHERTEXT_SIZE_MAX": UB},
+     "abstract": [("context.parameters_set()", "parametersSet", "Bool"),
+                  ("context.get_context_data(self.parms_id())",),
+                  ("context.get_context_data(self.parms_id()).is_none()", "ctxMissing", "Bool"),
+                  (CD,),
+                  (CD + ".chain_index()", "chainIndex", "Nat"),
+                  ("context.first_context_data().unwrap().chain_index()", "firstChainIndex", "Nat"),
+                  (CD + ".parms()",),
+                  (CD + ".parms().coeff_modulus()",),
+                  (CD + ".parms().coeff_modulus().len()", "levelSize", "Nat"),
+                  (CD + ".parms().poly_modulus_degree()", "levelN", "Nat"),
+                  ("self.coeff_modulus_size()", "ctComponents", "Nat"),
+                  ("self.poly_modulus_degree()", "ctN", "Nat"),
+                  ("self.size()", "ctSize", "Nat"),
+                  (CD + ".is_bfv()", "isBfv", "Bool"),
+                  (CD + ".is_bgv()", "isBgv", "Bool"),
+                  (CD + ".is_ckks()", "isCkks", "Bool"),
+                  ("self.scale() != 1.0", "scaleNotOne", "Bool"),
+                  ("self.scale() == 0.0", "scaleIsZero", "Bool"),
+                  ("self.correction_factor()", "cf", "Nat"),
+                  (CD + ".parms().plain_modulus()",),
+                  (CD + ".parms().plain_modulus().value()", "tValue", "Nat")]},
+    {"file": VC, "fn": "is_buffer_valid", "impl": "ValCheck for Ciphertext", "lean": "ct_is_buffer_valid", "model": "(flat buffer length; spec only)",
+     "abstract": [("self.data().len()", "dataLen", "Nat"), ("self.coeff_modulus_size()", "ctComponents", "Nat"),
+                  ("self.size()", "ctSize", "Nat"), ("self.poly_modulus_degree()", "ctN", "Nat")]},
+]
+
+# Gen/GaloisFns.lean: src/util/galois.rs (`GaloisTool` holds an RwLock: its two plain fields are inputs)
+UG = "src/util/galois.rs"
+TABLE_GALOIS = [
+    {"file": UG, "fn": "get_elt_from_step", "impl": "GaloisTool", "model": "eltFromStep", "consts": {"GALOIS_GENERATOR": UG},
+     "abstract": [("self.coeff_count", "coeffCount", "Nat")]},
+    {"file": UG, "fn": "get_elts_all", "impl": "GaloisTool", "model": "eltsAll", "consts": {"GALOIS_GENERATOR": UG},
+     "abstract": [("self.coeff_count", "coeffCount", "Nat"), ("self.coeff_count_power", "coeffCountPower", "Nat")]},
+    {"file": UG, "fn": "get_index_from_elt", "impl": "GaloisTool", "model": "(g - 1) / 2 for odd g"},
+]
+
+FILES += [
+    ("WordFns.lean", {"ns": "GenW", "imports": ["Heathcliff.Model.Word"], "table": TABLE, "prelude": PRELUDE}),
+    ("NttFns.lean", {"ns": "GenN", "imports": ["Heathcliff.Gen.WordFns"], "table": TABLE_NTT, "opens": ["HC.GenW"]}),
+    ("GaloisFns.lean", {"ns": "GenG", "imports": ["Heathcliff.Gen.WordFns"], "table": TABLE_GALOIS, "opens": ["HC.GenW"]}),
+    ("ValidFns.lean", {"ns": "GenV", "imports": ["Heathcliff.Gen.WordFns", "Heathcliff.Model.Scheme"], "table": TABLE_VALID, "opens": ["HC.GenW"]}),
+]
+
 if __name__ == "__main__":
-    print(gen_wordfns(sys.argv[1]))
+    res = gen_all(sys.argv[1])
+    print(res[sys.argv[2] if len(sys.argv) > 2 else "WordFns.lean"])
